@@ -459,3 +459,63 @@ func derivesFromValue(v, src ssa.Value, depth int) bool {
 	}
 	return false
 }
+
+// G8 the number of workers selects no behaviour.
+//
+// A launcher that is not order-relaxed by contract must produce the same registers, the same
+// order of register writes and the same error for every worker count, on failing runs too. The
+// worker-count parameter may bound the loop that starts goroutines and may be clamped; no
+// return and no call into the library may be control dependent on it - a "few workers" shortcut
+// through another routine differs from the parallel path exactly when something fails midway
+// (the sequential commit has already written the registers in front of the failing slab, the
+// parallel one writes none).
+func ruleG8(p *Prog, r *Report) {
+	const R = "G8"
+	n := 0
+	seen := map[*ssa.Function]bool{}
+	for _, g := range goStatements(p) {
+		launcher := g.Parent()
+		if launcher == nil || seen[launcher] || p.IsTestFile(launcher.Pos()) {
+			continue
+		}
+		seen[launcher] = true
+		if containsFold(launcher.Name(), "nondeterministic") {
+			continue
+		}
+		for _, prm := range launcher.Params {
+			if b, ok := prm.Type().Underlying().(*types.Basic); !ok || b.Info()&types.IsInteger == 0 {
+				continue
+			}
+			n++
+			cons := "worker-count-selects-nothing:" + p.Name(launcher) + ":" + prm.Name()
+			mentions := func(v ssa.Value) bool { return v == ssa.Value(prm) }
+			var bad ssa.Instruction
+			eachInstr(launcher, func(in ssa.Instruction) {
+				if bad != nil {
+					return
+				}
+				switch x := in.(type) {
+				case *ssa.Return:
+				case *ssa.Call:
+					if _, isB := x.Call.Value.(*ssa.Builtin); isB {
+						return
+					}
+					if cal := x.Call.StaticCallee(); cal != nil && (cal.Pkg != p.RootSSA) {
+						return
+					}
+				default:
+					return
+				}
+				if controlDependsOnValue(launcher, in.Block(), mentions) {
+					bad = in
+				}
+			})
+			if bad != nil {
+				r.Bad(R, cons, p.InstrPos(bad), "a return or a call into the library is control dependent on the worker count: with that count the routine takes another path (for example the sequential commit, which has written the registers in front of a slab that fails to encode, where the parallel path writes none), so registers and reported error after the same history differ between worker counts")
+			} else {
+				r.Ok(R, cons, p.Pos(launcher.Pos()), "the worker count only bounds the goroutine-starting loop and its own clamping")
+			}
+		}
+	}
+	r.Floor(R, "worker-count parameters of deterministic launchers", 2, n)
+}
